@@ -580,10 +580,13 @@ def corpus_check_module(st: Stats, rel, idx, module):
         raw = raw_lists(op)
         multi = False
         for c in CONSTRUCTS:
-            names, kinds = spec_kinds[c]
+            names, kinds, optlabel = spec_kinds[c]
             lst = raw[c]
-            if any(k != "S" for k in kinds):
+            nvar = sum(k != "S" for k in kinds)
+            shape = optlabel + "/" + ("no-variadic" if nvar == 0 else "one-variadic" if nvar == 1 else "multi-variadic")
+            if nvar:
                 multi = True
+                st.outcomes[f"corpus {c} defs: {shape}"] += 1
             st.evaluations += 1
             pos = 0
             problem = None
@@ -619,7 +622,7 @@ def corpus_check_module(st: Stats, rel, idx, module):
             if problem is None and pos != len(lst):
                 problem = "segments-do-not-cover-list"
             if problem:
-                st.violate(f"C10|corpus:{op.name}|{c}|{problem}",
+                st.violate(f"C10|corpus|{c}|{shape}|{problem}",
                            f"accessors of the {c} defs of {op.name} do not partition the {c} list of a verified op",
                            {"part": "K", "file": rel, "chunk": idx, "op": op.name, "construct": c, "kinds": kinds,
                             "list_length": len(lst)})
@@ -629,17 +632,21 @@ def corpus_check_module(st: Stats, rel, idx, module):
 
 
 def corpus_kinds(op):
-    """Definition of the op read from its OpDef: per construct (names, kinds)."""
+    """Definition of the op read from its OpDef: per construct (names, kinds, option label)."""
     from xdsl.irdl import OptionalDef, VariadicDef
 
     d = type(op).get_irdl_definition()
+    optnames = [type(o).__name__ for o in d.options]
     out = {}
     for c, defs in (("operand", d.operands), ("result", d.results), ("region", d.regions),
                     ("successor", d.successors)):
         names = [n for n, _ in defs]
         kinds = "".join("O" if isinstance(x, OptionalDef) else "V" if isinstance(x, VariadicDef) else "S"
                         for _, x in defs)
-        out[c] = (names, kinds)
+        cap = c.capitalize()
+        lab = "+".join(l for l, nm in (("attr-sized", f"AttrSized{cap}Segments"), ("same-size", f"SameVariadic{cap}Size"))
+                       if nm in optnames) or "no-option"
+        out[c] = (names, kinds, lab)
     return out
 
 
